@@ -1,6 +1,42 @@
+(** C16 — network views (bipartite graph, reaction strings, species graph) round-trip exactly.
+    Statements only; every proof is [exact <lemma of proof/C16_*.v>].
+
+    Vocabulary (coq/proof/C16_Defs.v, all decidable):
+      [wf16 H]          no stored reaction is empty or has an empty rule name; every species occurring in a reaction is
+                        registered and has a non-empty index entry; [order] is a duplicate-free enumeration of the ids;
+                        molecule labels only for registered species.  Implied by the store invariant of C15 ([C16_inv_wf]).
+      [strings_domain]  rules non-empty and blank-free, species labels in [A-Za-z][A-Za-z0-9_]*.
+      [rxns_of H]       the stored reactions (rule, reactants, products) as a list; multiset equality is [≡ₚ]. *)
 From stdpp Require Import gmap strings sets.
-From SK Require Import lib.Tok model.C15_Model model.C16_Model proof.C16_Defs.
+From SK Require Import lib.Tok model.C15_Model proof.C15_Proof model.C16_Model proof.C16_Defs proof.C16_Chars proof.C16_Str.
 Local Open Scope string_scope.
+
+(** every network reachable through the store operations (C15_inv_reachable) satisfies the decidable premise used below *)
+Theorem C16_inv_wf : ∀ H : net, Inv H → wf16 H.
+Proof. exact Inv_wf16. Qed.
+Print Assumptions C16_inv_wf.
+
+(** ** Reaction strings *)
+
+(** the side printer and RXNSide.from_str are inverse on the label domain, whatever white space surrounds the text:
+    coefficients of any size glued to the name ("12Cl2"), coefficient 1 omitted, " + " separators, the empty-side sign *)
+Theorem C16_side_roundtrip : ∀ (sd : side) (pre post : list Ascii.ascii),
+  side_labels_ok sd = true →
+  Forall (λ a, py_space a = true) pre → Forall (λ a, py_space a = true) post →
+  from_chars (pre ++ to_chars (fmt_side sd) ++ post) = Some sd.
+Proof. exact from_chars_side. Qed.
+Print Assumptions C16_side_roundtrip.
+
+(** printing with the rule suffix (with or without the id suffix, sorted or in insertion order) and parsing with suffix
+    parsing on (any default rule, any [prefer_suffix]) raises no error and gives the same multiset of
+    (rule, reactants, products) *)
+Theorem C16_strings_roundtrip : ∀ (H : net) (include_id sort prefer_suffix : bool) (default_rule : string),
+  wf16 H → strings_domain H = true →
+  (rxns_to_hypergraph (hypergraph_to_rxn_strings H true include_id sort) default_rule true prefer_suffix).2 = None ∧
+  rxns_of (rxns_to_hypergraph (hypergraph_to_rxn_strings H true include_id sort) default_rule true prefer_suffix).1
+    ≡ₚ rxns_of H.
+Proof. exact strings_roundtrip. Qed.
+Print Assumptions C16_strings_roundtrip.
 
 (** Outside the label domain [A-Za-z][A-Za-z0-9_]* the string round trip fails: "2_x" is read as one species. *)
 Theorem C16_label_domain_refuted :
